@@ -199,6 +199,13 @@ func main() {
 		}
 	case "alpharename":
 		// checker alpharename <scratch-copy-of-repo> <locals|all>
+		if args[2] == "probe" {
+			if err := probeInsert(args[1]); err != nil {
+				fmt.Fprintln(os.Stderr, err)
+				os.Exit(2)
+			}
+			break
+		}
 		if err := alphaRename(args[1], args[1], args[2]); err != nil {
 			fmt.Fprintln(os.Stderr, err)
 			os.Exit(2)
